@@ -2275,6 +2275,8 @@ class Callable(Generic, ValueSpecBase):
 
   def is_compatible(self, other: typing.Any) -> bool:
     if isinstance(other, Object):
+      if not self.is_noneable and other.is_noneable:
+        return False
       call_method = getattr(other.value_type, '__call__', None)
       if call_method is None or not inspect.isfunction(call_method):
         return False
